@@ -16,6 +16,7 @@ P=tools/design_parts
   cat $P/08b_refactor.md
   [ -f $P/08c_round_d.md ] && cat $P/08c_round_d.md
   [ -f $P/08d_round3_sweep.md ] && cat $P/08d_round3_sweep.md
+  [ -f $P/08e_round_e.md ] && cat $P/08e_round_e.md
   cat $P/09_why.md $P/10_appendix.md
 } > DESIGN.md
 wc -l DESIGN.md
